@@ -9,7 +9,8 @@ def type? : Sexp → Option DataType
   | .list [.atom "Decimal128", p, s] => do
     let p ← p.asNat?
     let s ← s.asInt?
-    pure (.Decimal128 p s)
+    -- negative scales are outside the cast model (`castVal` answers an error there): not comparable
+    if s < 0 then none else pure (.Decimal128 p s)
   | _ => none
 
 def typeStr : Option DataType → String
